@@ -114,12 +114,12 @@ CHECKS['C04'] = dict(
     title='Primitive operators are d^n/dx^n and multiplication by x^n on every interval',
     level='exploration',
     technique='bounded-exhaustive enumeration over the template matrix (operator power x spline order) and over grids, windows and coefficient patterns on the real operators against the exact reference derivative / x^n',
-    level_text='Dx<n> for n = 0..order+2, X<n> for n = 0..4 (thorough 0..6) and the identity on Spline<order>, order 0..3 (0..4), every window of grids far from, around and left of the origin, unit/zero/generic coefficients; the result must denote exactly the reference n-th derivative / x^n times the stored polynomial on every interval, and (I*s)==s.',
+    level_text='Dx<n> for n = 0..order+2, X<n> for n = 0..6 and the identity on Spline<order>, order 0..3 (0..4), every window of grids far from, around and left of the origin, unit/zero/generic coefficients; the result must denote exactly the reference n-th derivative / x^n times the stored polynomial on every interval, and (I*s)==s.',
     level_note='Trusted: GMP, engine/refpp.h (derivative and multiplication by x in the global monomial basis). Template parameters beyond the enumerated matrix are not instantiated.',
     units=std_units('checks/c04_primitive.cpp'),
     rule='cases = (grid, operator instantiation, spline order, window, coefficient pattern). Non-trivial = operand is a non-zero function.',
-    bounds=dict(quick='grids far4, neg4; orders 0..3; Dx 0..order+2; X 0..4', thorough='4 families n=5; orders 0..4; X 0..6'),
-    guards=dict(classes=['Dx1:nonzero', 'Dx3:zero-result', 'X2:nonzero', 'X4:nonzero', 'I:nonzero', 'Dx0:nonzero', 'X0:nonzero', 'win:point', 'win:empty', 'win:interval']),
+    bounds=dict(quick='grids far4, neg4; orders 0..3; Dx 0..order+2; X 0..6', thorough='4 families n=5; orders 0..4; X 0..6'),
+    guards=dict(classes=['Dx1:nonzero', 'Dx3:zero-result', 'X2:nonzero', 'X4:nonzero', 'X5:nonzero', 'X6:nonzero', 'I:nonzero', 'Dx0:nonzero', 'X0:nonzero', 'win:point', 'win:empty', 'win:interval']),
     assumptions=[A_SHAPE, A_POLY],
 )
 
@@ -380,7 +380,7 @@ CHECKS['C16'] = dict(
     level='exploration',
     engine='E1 input enumerator x build-configuration matrix',
     technique='bounded-exhaustive enumeration of well-scaled grids, knot multiplicities, orders and operations in float, double and long double across a build matrix (compiler x optimisation level x self-checks on/off); every produced number is converted exactly to a rational and compared with an independent exact reference under the stated 2^20 eps bound relative to the sum of absolute values of the terms; output bit patterns hashed and compared between self-check on/off builds',
-    level_text='All 375 grids formed by 2..4 of the points {-8,-63/8,-4,-1/8,0,1/8,1,7/2,63/8,8}; knot multiplicities 1..2 at every point; generation of orders 0..6 (every coefficient), and for 10 order pairs from 0..3 on three window placements: evaluation at exactly representable points, a+b, a*b, Dx<1>, Dx<2>, X<1>, X<2>, X<3>, spline factor, X1*Dx1-2, two linear and four bilinear forms. The magnitude comes from a reference written in the midpoint formulation over (value, magnitude) pairs of rationals (not from the operation sequence of the tree under test), cross-checked against the global-basis reference in every case.',
+    level_text='All 375 grids formed by 2..4 of the points {-8,-63/8,-4,-1/8,0,1/8,1,7/2,63/8,8}; knot multiplicities 1..2 at every point; generation of orders 0..6 (every coefficient), and for 10 order pairs from 0..3 on three window placements: evaluation at exactly representable points, a+b, a*b, Dx<1>, Dx<2>, X<1>..X<6>, spline factor, X1*Dx1-2, two linear and four bilinear forms. The magnitude comes from a reference written in the midpoint formulation over (value, magnitude) pairs of rationals (not from the operation sequence of the tree under test), cross-checked against the global-basis reference in every case.',
     level_note='Tolerance-based enumeration evidence for a numerical-stability claim, not an error analysis (weakest kind in this design). Trusted: GMP, exact float->rational conversion, the (value, magnitude) reference in checks/c16_float.cpp. -ffp-contract=off so that both compilers evaluate the same expressions.',
     units=c16_units,
     post=c16_post,
